@@ -30,10 +30,10 @@ REACH = {"quick": {"default-yielding-group": 300, "form:vector": 5000, "form:gro
 
 ACCEPT = {
     "all": ["bool", "int", "float", "str"], "any": ["bool", "int", "float", "str"],
-    "count": ["bool", "int", "float", "str", "date", "datetime"], "count_unique": ["bool", "int", "float", "str", "date", "datetime"],
-    "first": ["bool", "int", "float", "str", "date", "datetime"], "last": ["bool", "int", "float", "str", "date", "datetime"],
-    "nth": ["bool", "int", "float", "str", "date", "datetime"], "mode": ["bool", "int", "float", "str", "date", "datetime"],
-    "min": ["bool", "int", "float", "date", "datetime", "str"], "max": ["bool", "int", "float", "date", "datetime", "str"],
+    "count": ["bool", "int", "float", "str", "date", "datetime", "timedelta"], "count_unique": ["bool", "int", "float", "str", "date", "datetime", "timedelta"],
+    "first": ["bool", "int", "float", "str", "date", "datetime", "timedelta"], "last": ["bool", "int", "float", "str", "date", "datetime", "timedelta"],
+    "nth": ["bool", "int", "float", "str", "date", "datetime", "timedelta"], "mode": ["bool", "int", "float", "str", "date", "datetime", "timedelta"],
+    "min": ["bool", "int", "float", "date", "datetime", "str", "timedelta"], "max": ["bool", "int", "float", "date", "datetime", "str", "timedelta"],
     "mean": ["bool", "int", "float"], "median": ["bool", "int", "float"], "quantile": ["bool", "int", "float"],
     "std": ["bool", "int", "float"], "var": ["bool", "int", "float"], "sum": ["bool", "int", "float"],
 }
@@ -74,6 +74,10 @@ def generate(rng, tier):
             elif r < 0.6:
                 vals = [None if rng.random() < 0.35 else v for v in vals]
         groups.append(vals)
+    if helper == "mode" and kind in ("int", "float") and rng.random() < 0.05:
+        # a long group (size-dependent code paths) with a tie whose first-encountered value is not the smallest
+        groups = [[7, 3] * 600 + [5] if kind == "int" else [7.5, 3.5] * 600 + [5.5]] + groups[:1]
+        ngroups = len(groups)
     gids = rng.sample([-2, 0, 1, 3, 7, 10], ngroups)
     order = [(gi, j) for gi, vals in enumerate(groups) for j in range(len(vals))]
     # interleave rows of different groups while preserving within-group order
@@ -169,7 +173,7 @@ def execute(case):
     df = gen.build_frame(spec)
     pre = canon.frame_cells(df)
     trailers = {}
-    if case.get("trailers", True) and kind in ("bool", "int", "float", "date", "datetime", "str"):
+    if case.get("trailers", True) and kind in ("bool", "int", "float", "date", "datetime", "str", "timedelta"):
         # the same aggregate() call goes on with order-sensitive helpers on the same column: one helper must not disturb the next
         trailers = {"z_first": ("first", {}), "z_last": ("last", {}), "z_nth": ("nth", {"index": 1}), "z_mode": ("mode", {}), "z_count": ("count", {})}
     try:
